@@ -258,7 +258,10 @@ struct GoRecord {
 }
 
 /// The history oracle: checks the merged log of one session.
-fn check_history(prop_name: &str, sched: &Schedule, e: &Engine, job: usize, missed_window: bool) {
+/// Returns the largest overrun (ms) of a stop-to-bestmove latency over `held + allowance`, if any.
+/// The caller decides (after re-running the schedule alone) whether that is a violation.
+fn check_history(prop_name: &str, sched: &Schedule, e: &Engine, job: usize, missed_window: bool) -> Option<(usize, u64)> {
+    let mut slow: Option<(usize, u64)> = None;
     let replay = format!(
         "{{\"kind\":\"c10\",\"job\":{},\"schedule\":{},\"sched_env\":{},\"script\":{}}}",
         job,
@@ -355,13 +358,8 @@ fn check_history(prop_name: &str, sched: &Schedule, e: &Engine, job: usize, miss
         if let Some(ts) = g.stop_t_us {
             let lat_ms = t_bm.saturating_sub(ts) / 1000;
             out::set_max("C10.max_stop_to_bestmove_ms", lat_ms);
-            if lat_ms > sched.held_ms + ALLOWANCE_MS {
-                out::violation(
-                    prop_name,
-                    &format!("{kind}-go{}-stop-slow", k + 1),
-                    format!("[{}] go #{} '{}': bestmove came {lat_ms} ms after stop (schedule holds {} ms, allowance {ALLOWANCE_MS} ms)\n{}", sched.name, k + 1, g.cmd, sched.held_ms, e.transcript(0, 30)),
-                    replay.clone(),
-                );
+            if lat_ms > sched.held_ms + ALLOWANCE_MS && slow.map_or(true, |(_, l)| lat_ms > l) {
+                slow = Some((k + 1, lat_ms));
             }
         }
     }
@@ -427,6 +425,33 @@ fn check_history(prop_name: &str, sched: &Schedule, e: &Engine, job: usize, miss
     if out::want_sample() && job % 17 == 3 {
         out::sample(format!("C10 [{}] sched '{}': {}", sched.name, sched.sched, canon.join(" ")));
     }
+    slow
+}
+
+/// Only the timing clause, for re-runs: the largest stop-to-bestmove latency of the session (ms).
+fn worst_stop_latency(e: &Engine) -> Option<u64> {
+    let mut worst: Option<u64> = None;
+    let mut stop_t: Option<u64> = None;
+    let mut pending_go = false;
+    for ev in &e.log {
+        match ev.src {
+            Src::In if ev.line.starts_with("go") => {
+                pending_go = true;
+                stop_t = None;
+            }
+            Src::In if ev.line == "stop" && pending_go && stop_t.is_none() => stop_t = Some(ev.t_us),
+            Src::Out if ev.line.starts_with("bestmove") => {
+                if let Some(ts) = stop_t {
+                    let l = ev.t_us.saturating_sub(ts) / 1000;
+                    worst = Some(worst.map_or(l, |w| w.max(l)));
+                }
+                pending_go = false;
+                stop_t = None;
+            }
+            _ => {}
+        }
+    }
+    worst
 }
 
 fn position_of(line: &str) -> Option<Pos> {
@@ -448,13 +473,17 @@ fn position_of(line: &str) -> Option<Pos> {
 }
 
 fn run_schedule(ctx: &Ctx, sched: &Schedule, job: usize) {
+    run_schedule_inner(ctx, sched, job, true);
+}
+
+fn run_schedule_inner(ctx: &Ctx, sched: &Schedule, job: usize, first: bool) -> Option<u64> {
     let mut env = vec![("RCE_VERIF_TRACE".to_string(), "1".to_string())];
     if !sched.sched.is_empty() {
         env.push(("RCE_VERIF_SCHED".to_string(), sched.sched.clone()));
     }
     let Ok(mut e) = Engine::spawn(&ctx.engine, &env) else {
         out::harness_error("cannot start the engine".into());
-        return;
+        return None;
     };
     let mut missed = false;
     let mut out_from = 0usize;
@@ -484,9 +513,33 @@ fn run_schedule(ctx: &Ctx, sched: &Schedule, job: usize) {
         }
     }
     e.settle(150);
-    check_history("C10", sched, &e, job, missed);
+    let slow = if first { check_history("C10", sched, &e, job, missed) } else { None };
+    let lat = worst_stop_latency(&e);
     e.send("quit");
     let _ = e.wait_exit(500);
+    if let Some((k, lat_ms)) = slow {
+        // a wall-clock overrun on a loaded machine proves nothing: the same schedule is run three
+        // more times; only an overrun that shows every time is reported
+        let mut again = Vec::new();
+        for _ in 0..3 {
+            let l = run_schedule_inner(ctx, sched, job, false).unwrap_or(0);
+            again.push(l);
+        }
+        if again.iter().all(|l| *l > sched.held_ms + ALLOWANCE_MS) {
+            out::violation(
+                "C10",
+                &format!("{}-go{k}-stop-slow", sched.name.split('[').next().unwrap_or("")),
+                format!(
+                    "[{}] go #{k}: bestmove came {lat_ms} ms after stop (schedule holds {} ms, allowance {ALLOWANCE_MS} ms); reproduced 3/3: {again:?} ms",
+                    sched.name, sched.held_ms
+                ),
+                format!("{{\"kind\":\"c10\",\"job\":{job},\"schedule\":{}}}", esc(&sched.name)),
+            );
+        } else {
+            out::inconclusive("C10 slow stop not reproduced when the schedule was re-run (machine load)", 1);
+        }
+    }
+    lat
 }
 
 /// Unforced stress: go / stop / go cycles at natural speed; the GUI answers bestmove at once.
@@ -528,7 +581,11 @@ fn stress_session(ctx: &Ctx, idx: usize, seeds: &[String], cycles: u64) {
         }
     }
     e.settle(100);
-    check_history("C10", &sched, &e, 100_000 + idx, false);
+    if let Some((k, lat)) = check_history("C10", &sched, &e, 100_000 + idx, false) {
+        // natural-speed stress cannot be re-run with the same timing; a single slow stop is not a verdict
+        out::inconclusive("C10 stress: one stop took longer than the allowance (not reproducible by construction)", 1);
+        out::note(format!("stress session {idx}: go #{k} bestmove {lat} ms after stop"));
+    }
 }
 
 pub fn run_c10(ctx: &Ctx) -> Result<(), String> {
